@@ -1052,7 +1052,7 @@ class InBodyPhase(Phase):
         stopNames = stopNamesMap[token["name"]]
         for node in reversed(self.tree.openElements):
             if node.name in stopNames:
-                self.parser.phase.processEndTag(
+                self.processEndTag(
                     impliedTagToken(node.name, "EndTag"))
                 break
             if (node.nameTuple in specialElements and
@@ -1060,7 +1060,7 @@ class InBodyPhase(Phase):
                 break
 
         if self.tree.elementInScope("p", variant="button"):
-            self.parser.phase.processEndTag(
+            self.processEndTag(
                 impliedTagToken("p", "EndTag"))
 
         self.tree.insertElement(token)
@@ -1227,7 +1227,7 @@ class InBodyPhase(Phase):
 
     def startTagOpt(self, token):
         if self.tree.openElements[-1].name == "option":
-            self.parser.phase.processEndTag(impliedTagToken("option"))
+            self.processEndTag(impliedTagToken("option"))
         self.tree.reconstructActiveFormattingElements()
         self.parser.tree.insertElement(token)
 
